@@ -98,6 +98,51 @@ class ExtrasMixin:
                 if ast.unparse(ast.parse(ptext, mode="eval").body) == text and cn in r.cnt:
                     return VInt(r.cnt[cn])
             raise E.Unsupported(f"no registered counter for predicate {text!r} on list of {r.elem[1]}")
+        if name == "sum" and r.parts is not None and not gen.ifs:
+            tot = None
+            for poid in r.parts:
+                part = VGen(g.node, g.frame, VRef(poid, "list"))
+                v = self.fold_gen("sum", part)
+                tot = v if tot is None else self.binop(ast.Add(), tot, v)
+            return tot
+        if name == "sum" and r.elem[0] == "obj":
+            # ghost sum of an element expression over a symbolic object list: one real constant per (list, expression);
+            # empty list => 0; non-negative if the expression is non-negative for an arbitrary element satisfying the element facts
+            class Ren2(ast.NodeTransformer):
+                def visit_Name(self, n):
+                    return ast.copy_location(ast.Name(id="x", ctx=n.ctx), n) if n.id == var else n
+            import copy as _copy
+            etext = ast.unparse(Ren2().visit(_copy.deepcopy(g.node.elt)))
+            own_filters = [ast.unparse(Ren2().visit(_copy.deepcopy(c))) for c in gen.ifs]
+            # canonical filters: constants of the enclosing class are inlined so that `self.X` in code and a literal in a spec agree
+            base = r.origin or (r.sym, [])
+            filters = sorted(set(self.canon_filter(t_, g.frame) for t_ in list(base[1]) + own_filters))
+            skey = (etext, tuple(filters))
+            store = run.ghost_sums
+            gkey = (base[0], skey) if not r.shift or isinstance(r.shift, int) and not r.shift else (base[0], skey, str(r.shift))
+            if gkey not in store:
+                sname = f"{base[0]}#sum:{etext}" + ("|" + "&".join(filters) if filters else "")
+                sv = z3.Real(sname)
+                run.inputs[sname] = sv
+                store[gkey] = sv
+                # an empty list sums to 0; a filtered sum of non-negative terms is bounded by the unfiltered one
+                if not own_filters:
+                    run.assume(z3.Implies(r.length == 0, sv == 0))
+                # sign: evaluate the element expression on an arbitrary element
+                witness = self.symlist_elem(g.src, r, z3.Int(run.fresh_name("i!any")))
+                f2 = E.Frame(g.frame.relpath, g.frame.ci, {var: witness}, g.frame, g.frame.fname)
+                self.pure += 1
+                try:
+                    ev = self.eval(g.node.elt, f2)
+                    nonneg = self.num(ev) >= 0
+                    pos = self.num(ev) > 0
+                finally:
+                    self.pure -= 1
+                if run.check(z3.Not(nonneg)) == z3.unsat:
+                    run.assume(sv >= 0)
+                if run.check(z3.Not(pos)) == z3.unsat and not own_filters:
+                    run.assume(z3.Implies(r.length > 0, sv > 0))
+            return VReal(store[gkey])
         if name in ("any", "all") and r.arr is not None:
             i = z3.Int(run.fresh_name("i!q"))
             x = self.wrap(r.elem, z3.Select(r.arr, i))
@@ -113,6 +158,20 @@ class ExtrasMixin:
                 return VBool(z3.Exists([i], z3.And(rng, body)))
             return VBool(z3.ForAll([i], z3.Implies(rng, body)))
         raise E.Unsupported(f"{name}() over a comprehension on a symbolic list")
+
+    def canon_filter(self, text, frame):
+        """filter text with `self.CONST` class constants replaced by their literal value"""
+        node = ast.parse(text, mode="eval").body
+        ci = frame.ci if frame is not None else None
+
+        class Sub(ast.NodeTransformer):
+            def visit_Attribute(s_, n):
+                if isinstance(n.value, ast.Name) and n.value.id == "self" and n.attr.isupper() and ci is not None:
+                    c = self.repo.lookup_const(ci, n.attr)
+                    if c is not None and isinstance(c[0], ast.Constant):
+                        return ast.copy_location(ast.Constant(value=c[0].value), n)
+                return n
+        return ast.unparse(Sub().visit(node))
 
     def fold_builtin(self, name, args, kwargs):
         if args and isinstance(args[0], VGen):
@@ -354,6 +413,17 @@ class ExtrasMixin:
             if c["name"].endswith(suf) and c["outcome"] == "return":
                 return c["value"]
         return NONE
+
+    def spec_ceil_int(self, node, frame):
+        v = self.eval(node.args[0], frame)
+        x = self.num(v)
+        fl = z3.ToInt(x)
+        return VInt(z3.If(z3.ToReal(fl) == x, fl, fl + 1))
+
+    def spec_trunc_int(self, node, frame):
+        v = self.eval(node.args[0], frame)
+        x = self.num(v)
+        return VInt(z3.If(x >= 0, z3.ToInt(x), -z3.ToInt(-x)))
 
     def spec_truthy(self, node, frame):
         return VBool(E.simp(self.truthy(self.eval(node.args[0], frame))))
